@@ -225,7 +225,7 @@ def run_nndvi(case, ctx):
     ref_dtype = locals().get("ref_dtype") or case.get("literal", {}).get("ref_dtype")
     if ref_dtype:
         ctx.count("reference_dtype:" + ref_dtype)
-    det = NNDVI(**gen.maybe_numpy(kw, case, ctx))
+    det = gen.construct(NNDVI, kw, case, ctx)
     det.set_reference(batches[0].astype(ref_dtype) if ref_dtype else batches[0].copy())
     ref = batches[0]
     cmp_ = Cmp()
